@@ -241,6 +241,12 @@ def ops13 : List (String × Op) := [
     let K ← field j "model" >>= asKtensor
     let d ← field j "data" >>= asRats
     .ok (ktensorJ (updateF K d))),
+  ("c13_lbfgsb_inplace", fun j => do
+    -- the model LBFGSB.solve returns when the optimiser evaluated `evals` (in order) and reports `x`
+    let K ← field j "model" >>= asKtensor
+    let evals ← field j "evals" >>= asList asRats
+    let x ← field j "x" >>= asRats
+    .ok (ktensorJ (lbfgsbSolveInPlace tovecF updateF (fun _ _ _ => ((x, 0), evals)) (fun _ => 0) K none).1)),
   ("c13_lbfgsb_opts", fun j => do
     -- the options an LBFGSB object holds after one solve (the service answer is irrelevant)
     let oj ← field j "opts"
